@@ -479,6 +479,11 @@ func check(sc Scenario, ex execution) ([]violation, facts) {
 						prop = "C17"
 					}
 					bad(prop, "s%d (registered at record %d, obliged until record %d) never received %s (put at record %d, topics %q)", s, sv.regEnd, endAt, p.ser, p.pos, ex.msgTopics[p.ser])
+					if sv.presentedSet && prop != "C04" {
+						// for a subscriber that resumed with a Last-Event-ID a missing live event is a gap in
+						// "every later event exactly once" (C04), whatever made Joe skip it
+						bad("C04", "resuming s%d (presented %q, registered at record %d) never received %s (put at record %d): a gap after the replay/live boundary", s, sv.presented, sv.regEnd, p.ser, p.pos)
+					}
 				} else if healthy && anotherSubscriberFailedBefore(log, s, p.pos) {
 					healthyMatchedAfterFailure = true
 				}
